@@ -1,4 +1,5 @@
 from .chainmap import ReadOnlyChainMap
+from .getitem import getitem
 from .html import strip_tags
 from .lru_cache import LRUCache
 from .lru_cache import ThreadSafeLRUCache
@@ -8,6 +9,7 @@ from .text import truncate_words
 __all__ = (
     "LRUCache",
     "ThreadSafeLRUCache",
+    "getitem",
     "strip_tags",
     "truncate_chars",
     "truncate_words",
